@@ -25,22 +25,45 @@ META = {
             "%rewrite block (C17_no_spurious_rewrite_refuted). All of it instantiated by computation to the rule tree of every "
             "canonical device of Gen/Src_implicit.v (18 devices = every hardware attribute and tag _implicit_tree consults; texts "
             "and parsed trees re-read by calling the real function on every run, C17_src_*; the gen.py completion statements re-read "
-            "by ast). PARTIAL: the patch half of the no-spurious clause (no command has the default or its reverse form as last "
-            "element) is only stated (C17_no_spurious_patch_statement). Correspondence (Coq evaluates model==implementation and "
+            "by ast). Patch half of the no-spurious clause, proved for all inputs: for any diff, any patch logic (default, undo_redo, "
+            "ordered, rewrite, permanent, ignore_changes), any ordering and every formatter family whose command paths are the path "
+            "stack of the block stream (all but the Juniper/Nokia flattening), the last element of a command path of make_patch is "
+            "an exit word, the row of a non-UNCHANGED diff entry below the parent, the removal command of a REMOVED (or "
+            "%ordered-MOVED) entry there, or `commit` of a %force_commit rule (C17_patch_cmds_explained, on the C02 lemma "
+            "make_patch_rel); under the hypotheses of the diff half every command below the parent is explained by an entry whose "
+            "row is NOT the default (C17_no_spurious_patch, C17_no_spurious_patch_row; C17_pipeline_no_spurious_patch for "
+            "Model/Pipeline.v diff_and_patch -> cmd_paths in terms of the shown diff); instantiated to the 18 hardware branches and "
+            "every shipped block family, the side condition 'no shipped default row or its reverse form is an exit word or commit' "
+            "discharged by computation on the regenerated tables (C17_hw_no_spurious_patch, C17_src_defaults_clean). The sentence 'no "
+            "command has the default as last element' is FALSE as it stands: the default can be the removal command of another "
+            "removed line (C17_no_spurious_patch_unconditional_refuted: Huawei CE, `ntp server disable` removed -> `undo ntp server "
+            "disable`), and the earlier formalisation P_nospur/C17_no_spurious_patch_statement is false as well because a removal "
+            "command is formed from the rule's pattern and key, not from the whole line (C17_no_spurious_patch_statement_refuted); "
+            "a block ADDED as a whole carries the defaults of its completion as commands (C17_no_spurious_added_parent_refuted, "
+            "C17_nospur_added_refuted), whereas below a block that only the device side has there is NO command at all unless its "
+            "rule is %permanent: a row of old that new has not is REMOVED and a REMOVED entry heads a block of the patch only under "
+            "%permanent (C17_removed_parent_no_commands, C17_patch_block_headers, C17_hw_removed_parent; guard needed: "
+            "C17_removed_parent_permanent_refuted). All witnesses are replayed on the real _diff_and_patch on every run. Correspondence (Coq evaluates model==implementation and "
             "P_C17 on real outputs): implicit.config, merge_dicts and a second completion for every device and for random implicit "
             "rule texts with near-miss rows; the real annet.gen._old_new_per_device with add_implicit off/on; real _diff_and_patch "
             "on completed trees with the shipped rulebook of each device and with synthetic rulebooks (also compared with the Coq "
             "pipeline model). Findings on the unchanged tree (known/C17.json): non-idempotence for a non-`!` rule with children; a "
-            "default row absent from both sides gets ADDED/REMOVED and a command when one side has another row matching its pattern.",
+            "default row absent from both sides gets ADDED/REMOVED and a command when one side has another row matching its pattern; "
+            "a block present on the generator side only is sent with the default rows of its completion (P_nospur_added evaluated by "
+            "Coq on the real outputs).",
     "technique": "Coq induction over rule trees and config trees; regenerated implicit-rule table; vm_compute "
                  "differential check of implicit.config / merge_dicts / _diff_and_patch",
-    "note": "partial: the patch half of clause 4 is correspondence-tested only; the row matcher for one-word regexes without "
-            "the */re/ marker is correspondence-tested, not proved equal to CPython re; clause 4 is claimed for parents present on "
-            "both sides and rows under the default diff logic",
+    "note": "clause 4 (diff and patch half) is proved for parents present on both sides and rows under the default diff logic, "
+            "for parents only the device side has (no command below a block removed as a whole, rule not %permanent), and refuted for "
+            "parents the generator adds as a whole (open finding); the Juniper/Nokia command flattening is outside the "
+            "patch-half theorem; P_nospur (the predicate of the correspondence) approximates a removal command by reverse_row of the "
+            "line and is therefore not the proved statement; the row matcher for one-word regexes without "
+            "the */re/ marker is correspondence-tested, not proved equal to CPython re",
 }
 
 KNOWN_IDEM = "C17/idem/default-row-of-rule-with-children"
 KNOWN_EXT = "C17/no-spurious/row-matching-the-default-pattern-on-one-side"
+KNOWN_ADDED = "C17/no-spurious/default-below-a-block-added-as-a-whole"
 
 # ------------------------------------------------------------------ instantiating rule rows
 
@@ -499,6 +522,61 @@ def irules_from_patching(rng: random.Random, rules: list[dict], depth: int = 0) 
     return out
 
 
+def has_added_block(old: dict, new: dict) -> bool:
+    """selection only (where the one-sided predicate can say anything): some block of new is missing in old"""
+    for k, v in new.items():
+        if k not in old:
+            if v:
+                return True
+        elif has_added_block(old[k], v):
+            return True
+    return False
+
+
+def patch_witnesses(ctx, table: dict, shipped: list, outs_sh: list, keep_sh: list, result: dict) -> None:
+    """the witnesses of the patch-half theorems on the real code, and P_nospur_added (Coq) on real outputs"""
+    ce = {"kind": "pipe", "model": "Huawei CE6870", "tags": [], "shipped": True, "name": "huawei_ce", "src": "witness"}
+    ws = [dict(ce, old={"ntp server disable": {}}, new={}),                                  # C17_no_spurious_patch_unconditional_refuted
+          {"kind": "pipe", "rules_text": "undo foo bar", "vendor": "huawei", "hw": "Huawei CE6870", "patching": "foo *\nundo foo *",
+           "ordering": "", "old": {"foo bar baz": {}}, "new": {}},                          # C17_no_spurious_patch_statement_refuted
+          dict(ce, old={}, new={"user-interface con 0": {"idle-timeout 5": {}}}),           # C17_no_spurious_added_parent_refuted
+          {"kind": "pipe", "rules_text": "!user-interface con *\n    user privilege level 3", "vendor": "huawei",
+           "hw": "Huawei CE6870", "patching": "user-interface * %logic=common.permanent\n    user ~\n    idle-timeout *",
+           "ordering": "", "old": {"user-interface con 0": {"idle-timeout 5": {}}}, "new": {}},   # C17_removed_parent_permanent_refuted
+          {"kind": "pipe", "rules_text": "!user-interface con *\n    user privilege level 3", "vendor": "huawei",
+           "hw": "Huawei CE6870", "patching": "user-interface *\n    user ~\n    idle-timeout *",
+           "ordering": "", "old": {"user-interface con 0": {"idle-timeout 5": {}}}, "new": {}}]   # C17_hw_removed_parent_nonvacuous
+    keys = ("kind", "model", "tags", "shipped", "rules_text", "vendor", "hw", "patching", "ordering", "old", "new")
+    outs = core.run_impl("c17_runner.py", [{k: c[k] for k in keys if k in c} for c in ws])
+    expect = [["undo ntp server disable"], ["undo foo bar"], ["user-interface con 0", "user privilege level 3"],
+              ["user-interface con 0", "undo user privilege level 3"], ["undo user-interface con"]]
+    names = ["C17_no_spurious_patch_unconditional_refuted", "C17_no_spurious_patch_statement_refuted",
+             "C17_no_spurious_added_parent_refuted", "C17_removed_parent_permanent_refuted", "C17_hw_removed_parent_nonvacuous"]
+    rep = {}
+    for c, o, e, n in zip(ws, outs, expect, names):
+        rep[n] = e in (o.get("cmd_paths") or []) and (n != "C17_hw_removed_parent_nonvacuous" or o.get("cmd_paths") == [e])
+        if not rep[n]:
+            ctx.add_violation(core.Violation(
+                signature="C17/model-impl-disagree/patch-witness",
+                what=f"the witness of {n} no longer behaves on the real code as in the model (command path {e} expected)",
+                replay={"case": c, "impl": o}, no_input=True))
+    result["patch_witnesses_replayed"] = rep
+    # a block that only the generator side has: do the defaults of its completion become commands?  (Coq predicate)
+    sel = [i for i in keep_sh if shipped[i].get("shipped") and has_added_block(shipped[i]["old"], shipped[i]["new"])][:80]
+    cs = [ws[2]] + [shipped[i] for i in sel]
+    os_ = [outs[2]] + [outs_sh[i] for i in sel]
+    terms = [coq_pipe(c, o, table) for c, o in zip(cs, os_)]
+    res = core.run_case_files(ID, "c17pipe", IMPORTS, {"added": "P_nospur_added imatch (fun _ => true)"}, terms,
+                              per_file=30, tag="pipe_added")
+    result["added_parent"] = {"evaluated": len(terms), "failing": len(res["added"])}
+    for i in res["added"][:1]:
+        ctx.add_violation(core.Violation(
+            signature=KNOWN_ADDED,
+            what="a block present on the generator side only is sent with the default rows of its completion although neither "
+                 "the device text nor the generator output has them",
+            replay={"case": cs[i], "impl": os_[i], "clause": "added_parent"}))
+
+
 def run_pipe(ctx, table: dict) -> dict:
     hist: dict = {}
     shipped, synth = pipe_cases(ctx, table, hist)
@@ -579,6 +657,7 @@ def run_pipe(ctx, table: dict) -> dict:
             signature="C17/model-impl-disagree/rewrite-witness",
             what="the witness of C17_no_spurious_rewrite_refuted no longer behaves on the real code as in the model",
             replay={"impl": w}, no_input=True))
+    patch_witnesses(ctx, table, shipped, outs_sh, keep_sh, result)
     if not failed:
         for a in ("agree_diff", "agree_patch", "agree_paths"):
             for i in res_sy[a][:1]:
@@ -643,7 +722,9 @@ def run(ctx):
         "idem_failures": len(res.get("holds_idem", [])),
         "refutation_witnesses_replayed": {"C17_idem_refuted": "huawei_ne / empty config is case hw/empty of the stream "
                                                                "(known finding seen: %s)" % bool(res.get("holds_idem")),
-                                          "C17_no_spurious_rewrite_refuted": pipe.get("rewrite_witness_replayed")},
+                                          "C17_no_spurious_rewrite_refuted": pipe.get("rewrite_witness_replayed"),
+                                          **pipe.get("patch_witnesses_replayed", {})},
+        "added_parent_cases": pipe.get("added_parent", {}),
         "devices": sorted(table),
     })
     ctx.assumptions += [
@@ -651,7 +732,9 @@ def run(ctx):
         "rewritten to */re/ (Implicit.widen); correspondence-tested, not proved equal to CPython re",
         "which text _implicit_tree selects for a device is executed (one canonical device per consulted hardware attribute), "
         "not modelled",
-        "no-spurious clause: parents present on both sides; a block present on one side only is created/removed with its defaults",
+        "no-spurious clause: parents present on both sides; a block the generator side adds as a whole is created with its "
+        "defaults (open finding, P_nospur_added); a block removed as a whole has no command below it unless its rule is %permanent (proved)",
+        "patch half: formatter families whose cmd_paths is the path stack of the block stream (not the Juniper/Nokia flattening)",
         "pipeline theorems inherit the model limits of C03 (no %ignore_case re-keying, %multiline, vendor diff logics)",
     ]
 
@@ -666,7 +749,7 @@ def replay(ctx, doc):
     if c["kind"] == "pipe":
         res = core.run_case_files(ID, "c17pipe", IMPORTS,
                                   {"nospur": "P_nospur imatch (fun _ => true)", "strict": "P_nospur_strict imatch (fun _ => true)",
-                                   "completed": "P_pipe_completed imatch"},
+                                   "completed": "P_pipe_completed imatch", "added": "P_nospur_added imatch (fun _ => true)"},
                                   [coq_pipe(c, o, table)], tag="replay")
     else:
         res = core.run_case_files(ID, "string * c17case", IMPORTS,
